@@ -281,6 +281,10 @@ void ezc3d::c3d::parameter(const std::string &groupName, const ezc3d::Parameters
     if (p.type() == ezc3d::DATA_TYPE::NONE)
         throw std::runtime_error("Data type is not set");
 
+    // Keep the parameters and the header, so the edit can be undone as a whole if the header cannot follow it
+    ezc3d::ParametersNS::Parameters previousParameters(parameters());
+    ezc3d::Header previousHeader(header());
+
     size_t idx;
     try {
         idx = parameters().groupIdx(groupName);
@@ -288,26 +292,15 @@ void ezc3d::c3d::parameter(const std::string &groupName, const ezc3d::Parameters
         _parameters->group(ezc3d::ParametersNS::GroupNS::Group(groupName));
         idx = parameters().groupIdx(groupName);
     }
-
-    // Keep the parameter that is about to be replaced, so the edit can be undone if the header cannot follow it
-    ezc3d::ParametersNS::GroupNS::Group& grp(_parameters->group_nonConst(idx));
-    bool isReplaced(false);
-    ezc3d::ParametersNS::GroupNS::Parameter previous;
-    try {
-        previous = grp.parameter(p.name());
-        isReplaced = true;
-    } catch (std::invalid_argument) {
-    }
-    ezc3d::Header previousHeader(header());
-    grp.parameter(p);
+    _parameters->group_nonConst(idx).parameter(p);
 
     // Do a sanity check on the header if important stuff like number of frames or number of elements is changed
     try {
         updateHeader();
     } catch (...) {
-        // A mandatory parameter of the wrong type or without value: the call is refused as a whole
-        if (isReplaced)
-            grp.parameter(previous);
+        // A mandatory parameter of the wrong type, without value, or without the other parameters the header
+        // needs beside it: the call is refused as a whole
+        *_parameters = previousParameters;
         *_header = previousHeader;
         throw;
     }
